@@ -71,7 +71,7 @@ impl Property for Prop {
         "C02"
     }
     fn rule(&self) -> &'static str {
-        "trains: key -> seeded (PDU length from the size lattice / ranges up to 65533 - label, content class, label case incl. substituted first fragment, frag id 0..=255, protocol type >= 0x0600, one of 16 buffer-size schedules: constant 13/14/20/100/4096/4097/4098/5000/70000, random mix with tiny buffers, payload-fits-but-CRC-does-not, land-on-PDU-end-then-tiny, descending ramp, ascending ramp, first buffer 1..8 bytes short of the complete packet followed by exact-fit end buffers; receiver storage == PDU length, 65535 / 65536 / 65537, multiples of 65536, or 70000). longrun: one encapsulator / decapsulator pair carries 600 fragmented PDUs with one label under re-use limits 255 / 254 / 2 / unlimited. One train in four is preceded by a refused encap_ext call with its label on the same encapsulator; one in four meets a receiver on which a PDU of the same fragment id was abandoned and whose free list was then topped up to full. batch: the sender works ahead of the receiver: 2..4 PDUs of the same size, label and protocol type are fragmented one after the other from ONE buffer refilled in place (re-use on or off, same or consecutive fragment ids), then all packets are decapsulated in order. Every encap/encap_frag call and every decap call is an evaluation. A train is non-trivial when it was fragmented (>= 2 packets), completed, and the receiver delivered; fingerprint = (PDU length, schedule, label case, frag id, number of packets)."
+        "trains: key -> seeded (PDU length from the size lattice / ranges up to 65533 - label, content class, label case incl. substituted first fragment, frag id 0..=255, protocol type >= 0x0600, one of 16 buffer-size schedules: constant 13/14/20/100/4096/4097/4098/5000/70000, random mix with tiny buffers, payload-fits-but-CRC-does-not, land-on-PDU-end-then-tiny, descending ramp, ascending ramp, first buffer 1..8 bytes short of the complete packet followed by exact-fit end buffers; receiver storage == PDU length, 65535 / 65536 / 65537, multiples of 65536, or 70000). longrun: one encapsulator / decapsulator pair carries 600 fragmented PDUs with one label under re-use limits 255 / 254 / 2 / unlimited. Three trains in eight have the receiver's label memory emptied between two of their fragments (reset_last_label, padding, a broadcast packet of another stream). One train in four is preceded by a refused encap_ext call with its label on the same encapsulator; one in four meets a receiver on which a PDU of the same fragment id was abandoned and whose free list was then topped up to full. batch: the sender works ahead of the receiver: 2..4 PDUs of the same size, label and protocol type are fragmented one after the other from ONE buffer refilled in place (re-use on or off, same or consecutive fragment ids), then all packets are decapsulated in order. Every encap/encap_frag call and every decap call is an evaluation. A train is non-trivial when it was fragmented (>= 2 packets), completed, and the receiver delivered; fingerprint = (PDU length, schedule, label case, frag id, number of packets)."
     }
     fn gens(&self, cx: &Cx) -> Vec<Gen> {
         vec![Gen { name: "trains", count: cx.n(30_000, 2_000_000), exhaustive: false }, Gen { name: "lengths", count: 65534, exhaustive: true }, Gen { name: "batch", count: cx.n(4_000, 300_000), exhaustive: false }, Gen { name: "longrun", count: 12, exhaustive: true }]
@@ -461,6 +461,27 @@ impl Property for Prop {
                     remaining_after_first = plen - o.ctx.unwrap().len_pdu_frag() as usize;
                 }
                 ctx = o.ctx;
+                // between two fragments of the train the receiver's label memory is emptied by a legal event (one train
+                // in eight each): reset_last_label() at a frame boundary, padding, a broadcast packet of another stream
+                if npk == 1 + ((key / 128) % 2) as usize {
+                    match (key / 16) % 8 {
+                        5 => {
+                            dec.reset_last_label();
+                            rep.count("trains.mid-train.reset_last_label");
+                        }
+                        6 => {
+                            let _ = dec_guard(&mut dec, &[0u8; 5]);
+                            rep.count("trains.mid-train.padding");
+                        }
+                        7 => {
+                            if let Ok(Ok((DecapStatus::CompletedPkt(bf, _), _))) = dec_guard(&mut dec, &crate::hostile::mk_complete(2, &[], 0x0800, b"")) {
+                                give_back(&mut dec, bf);
+                                rep.count("trains.mid-train.broadcast-packet");
+                            }
+                        }
+                        _ => {}
+                    }
+                }
                 if useful_after_first > remaining_after_first + 1 {
                     rep.violation("C02", format!("not-completed-in-time:{}", cls), || format!("pdu {}B: {} buffers >= 13 bytes offered after the first fragment, {} bytes remained", plen, useful_after_first, remaining_after_first), &replay);
                     return;
